@@ -7,7 +7,7 @@ PROPS = {}
 SOURCE_COMMITS = []   # hook commits in /repo (none: contracts live in /verif); fix: commits are listed in known_findings.txt
 # properties not (yet) claimed, with the reason that goes to MANIFEST.not_applicable
 UNCLAIMED = {p: "no check is registered for this property yet (contracts planned in DESIGN.md section 4 are not built); nothing is claimed"
-             for p in ("C02", "C05", "C09", "C11", "C12", "C14", "C15", "C18", "C19")}
+             for p in ("C05", "C11", "C15", "C18", "C19")}
 
 
 def J(**kw):
@@ -182,7 +182,10 @@ def select(prop, tier, seed, sel):
     rnd = random.Random(seed)
     keep = set([(0, 0), (15, 15), (0, 1), (14, 15), (0, 2), (7, 9)])
     deep = [(pr, cr) for (pr, cr) in PAIRS if 3 <= cr - pr <= 8]   # deeper pairs take minutes each: thorough tier only
-    keep.update(rnd.sample(deep, 4))
+    if prop in ("C04", "C13"):
+        keep.update(rnd.sample(deep, 4))
+    else:
+        keep = set([(0, 0), (15, 15), (0, 1), (7, 9)])   # aggregate properties: the per-pair families belong to C04/C13
     out = []
     for j in sel:
         if "pair" in j and tuple(j["pair"]) not in keep:
@@ -317,3 +320,87 @@ J(name="c06.uncompactCellsSize", props=["C06", "C12", "C18"], harness="c03.c", e
               inv="0 <= i && (i <= numCompacted || numCompacted < 0) && 0 <= numOut && numOut <= (i << 43) && "
                   "((0 <= h3v_g && h3v_g < i && compactedSet[h3v_g] != 0) ==> (S_HAS_CHILD_AT(compactedSet[h3v_g], res) && "
                   "numOut >= S_NCHILD(compactedSet[h3v_g], res)))")])
+
+# ------------------------------------------------------------------ C12 batch / C14 / C09 / C02 argument clauses
+for fn in ("getHexagonAreaAvgKm2", "getHexagonAreaAvgM2", "getHexagonEdgeLengthAvgKm", "getHexagonEdgeLengthAvgM"):
+    J(name="c12." + fn, props=["C12", "C18"], harness="c12.c", entry="h_" + fn, enforce=[fn])
+for fn in ("getResolution", "getBaseCellNumber", "isResClassIII", "describeH3Error"):
+    J(name="c12." + fn, props=["C12", "C18"], harness="c12.c", entry="h_" + fn, enforce=[fn])
+J(name="c12.maxFaceCount", props=["C12", "C18", "C19"], harness="c12.c", entry="h_maxFaceCount", enforce=["maxFaceCount"], replace=["isPentagon"])
+J(name="c12.maxGridDiskSize", props=["C12", "C18", "C05"], harness="c12.c", entry="h_maxGridDiskSize", enforce=["maxGridDiskSize"],
+  replay=dict(fn="maxGridDiskSize", args=["k"]))
+J(name="c12.gridRingUnsafe", props=["C12", "C18", "C05"], harness="c12.c", entry="h_gridRingUnsafe", enforce=["gridRingUnsafe"],
+  replace=["h3NeighborRotations/h3NeighborRotations_frame", "isPentagon"],
+  loops=[dict(fn="gridRingUnsafe", loop=0, locals=["ring", "k", "origin", "rotations"], assigns="ring, origin, rotations",
+              inv="0 <= ring && ring <= k", dec="k - ring"),
+         dict(fn="gridRingUnsafe", loop=1, locals=["direction", "pos", "idx", "k", "origin", "rotations", "out"],
+              assigns="pos, idx, origin, rotations, __CPROVER_object_whole(out)",
+              inv="0 <= pos && pos <= k && 0 <= direction && direction < 6 && k >= 1 && "
+                  "idx == 1 + direction * k + pos - ((direction == 5 && pos == k) ? 1 : 0)", dec="k - pos"),
+         dict(fn="gridRingUnsafe", loop=2, locals=["direction", "idx", "k", "origin", "rotations", "out"],
+              assigns="direction, idx, origin, rotations, __CPROVER_object_whole(out)",
+              inv="0 <= direction && direction <= 6 && k >= 1 && idx == 1 + direction * k - (direction == 6 ? 1 : 0)", dec="6 - direction")],
+  replay=dict(fn="gridRingUnsafe", args=["origin", "k"]))
+J(name="c09.cellToLocalIj", props=["C09", "C12", "C18"], harness="c12.c", entry="h_cellToLocalIj", enforce=["cellToLocalIj"],
+  replace=["cellToLocalIjk/cellToLocalIjk_frame", "ijkToIj/ijkToIj_frame"])
+J(name="c09.localIjToCell", props=["C09", "C12", "C18"], harness="c12.c", entry="h_localIjToCell", enforce=["localIjToCell"],
+  replace=["localIjkToCell/localIjkToCell_frame"])
+J(name="c09.gridDistance", props=["C09", "C12", "C18"], harness="c12.c", entry="h_gridDistance", enforce=["gridDistance"],
+  replace=["cellToLocalIjk/cellToLocalIjk_frame", "ijkDistance/ijkDistance_frame"])
+J(name="c14.gridPathCellsSize", props=["C14", "C12", "C18"], harness="c12.c", entry="h_gridPathCellsSize", enforce=["gridPathCellsSize"],
+  replace=["gridDistance/gridDistance_ghost"])
+J(name="c14.gridPathCells", props=["C14", "C12", "C18"], harness="c12.c", entry="h_gridPathCells", enforce=["gridPathCells"], checks=NO_CONV,
+  exclude=[(r"(cubeRound|gridPathCells)\.overflow", "integer arithmetic on the rounded interpolated cube coordinates is overflow-free only because the "
+            "coordinates produced by cellToLocalIjk are small; that bound is not established here (cellToLocalIjk is a frame-only contract)")],
+  replace=["gridDistance/gridDistance_ghost", "cellToLocalIjk/cellToLocalIjk_frame", "localIjkToCell/localIjkToCell_frame",
+           "ijkToCube/ijkToCube_frame", "cubeToIjk/cubeToIjk_frame"],
+  loops=[dict(fn="gridPathCells", loop=0, locals=["n", "distance", "out", "currentIjk"], assigns="n, currentIjk, __CPROVER_object_whole(out)",
+              inv="0 <= n && n <= distance + 1 && distance == h3v_dist", dec="distance + 1 - n")])
+J(name="c02.latLngToCell.args", props=["C02", "C12", "C18"], harness="c12.c", entry="h_latLngToCell", enforce=["latLngToCell"],
+  replace=["_geoToFaceIjk/_geoToFaceIjk_frame", "_faceIjkToH3/_faceIjkToH3_frame"])
+
+PROPS["C12"] = dict(
+    level="other",
+    explanation="one totality contract per function under contract: scalar arguments unconstrained (arbitrary 64-bit indexes, ints, doubles), "
+                "buffers of the documented size, postcondition = documented error code for out-of-domain scalars; CBMC's bounds / pointer / "
+                "overflow / shift / conversion / division checks are the safety obligations inside the real function bodies (class S). "
+                "Functions not under contract are listed in clauses_not_decided.",
+    trusted_base=["frame-only contracts for callees whose values do not matter to safety (listed under contracts_assumed when never enforced)"],
+    not_decided=["functions without a totality contract in this round: cellToLatLng, cellToBoundary, getIcosahedronFaces, directedEdgeToBoundary, "
+                 "vertexToLatLng, cellToVertex(es), isValidVertex, cellArea*, edgeLength*, greatCircleDistance*, gridDiskUnsafe, "
+                 "gridDiskDistancesUnsafe, gridDisksUnsafe, gridDiskDistancesSafe, compactCells, polygonToCells, maxPolygonToCellsSize, "
+                 "cellsToLinkedMultiPolygon, destroyLinkedMultiPolygon; and the geometric callees replaced by frame-only contracts",
+                 "the clause 'no internal cannot-happen check is ever triggered' (debug-flavour assertions) is not checked in this round"],
+    assumptions=[],
+    level_text="Per-function unbounded proof of memory safety, absence of arithmetic UB and documented error codes for the functions listed in "
+               "functions_under_contract; the remaining exported functions are enumerated as not covered, so the property as a whole is "
+               "only partially decided.",
+    level_note="Category 'other': a per-function proof for a stated subset of the API. Trusts CBMC/DFCC/CaDiCaL; callees replaced by contracts.")
+PROPS["C14"] = dict(
+    level="other",
+    explanation="announced-size clauses by contracts: gridPathCellsSize == gridDistance + 1 or the same error; gridPathCells writes only "
+                "out[0..distance] (loop contract, buffer of exactly distance+1 cells) and nothing at all when the distance call fails. "
+                "gridDistance enters as an opaque deterministic result (ghosts).",
+    trusted_base=[], assumptions=[],
+    not_decided=["the path starts with a, ends with b and consecutive cells are neighbours (floating-point interpolation + local IJ geometry)",
+                 "success for a == b and for every pair of neighbouring cells"],
+    level_text="Unbounded proof of the size/write-bound clauses on the real functions; contiguity/endpoints are not decidable here.",
+    level_note="Category 'other': partial. cellToLocalIjk / localIjkToCell / cube conversions are frame-only contracts.")
+PROPS["C09"] = dict(
+    level="other",
+    explanation="argument clauses by contracts: cellToLocalIj / localIjToCell reject mode != 0 with E_OPTION_INVALID leaving outputs untouched; "
+                "gridDistance returns a non-negative distance or an error leaving the output untouched",
+    trusted_base=[], assumptions=[],
+    not_decided=["gridDistance equals the true graph distance, symmetry, 0 for a==b, 1 for neighbours, E_RES_MISMATCH for differing resolutions "
+                 "(decided inside cellToLocalIjk, which is a frame-only contract here)",
+                 "cellToLocalIj / localIjToCell mutually inverse; localIjToCell returns only valid cells; unit IJ steps between neighbours"],
+    level_text="Only the option/argument clauses are proved (unbounded, real code); the relational clauses are not decided in this round.",
+    level_note="Category 'other': small part of the statement. Trusts CBMC/DFCC/CaDiCaL.")
+PROPS["C02"] = dict(
+    level="other",
+    explanation="argument-validation clause by contract on the real latLngToCell: resolution outside 0..15 => E_RES_DOMAIN, non-finite "
+                "coordinate => E_LATLNG_DOMAIN, in both cases no index written; otherwise success with a non-null index or E_FAILED",
+    trusted_base=["glibc's isfinite macro is redirected to CBMC's __CPROVER_isfinited (stubs/pre_math.h)"], assumptions=[],
+    not_decided=["the returned cell's boundary contains the point (gnomonic projection, libm)", "success and validity of the result for every finite coordinate"],
+    level_text="Only the rejection clauses are proved (all doubles including NaN/inf, all ints); containment is outside the technique.",
+    level_note="Category 'other'. _geoToFaceIjk and _faceIjkToH3 are frame-only contracts.")
